@@ -1,6 +1,14 @@
 """Per-property metadata used by the runner (levels, explanations)."""
 
 PROPS = {
+    "C20": {
+        "level": "other",
+        "explanation": "append-only open modes, version-counter confinement, provenance of version/checksum/target "
+                       "segment of every record, one write per record, prune guarded by `id < segment_of(saved "
+                       "version)` after the snapshot rename, end marker only at roll-over and synced",
+        "not_decided": "numeric membership in (iN, (i+1)N], monotonicity as values, decoding the bytes with an "
+                       "independent reader",
+    },
     "C16": {
         "level": "other",
         "explanation": "totality and bounded allocation of the decoders decided by panic/allocation reachability over "
